@@ -257,6 +257,22 @@ def run(ctx: core.Ctx):
                 good = abs(ds.tau.values[i, j] - o["tau"]) < 1e-6 and abs(ds.pvalue.values[i, j] - o["p"]) < 1e-6 and abs(ds.slope.values[i, j] - o["slope"]) < 1e-5
             if not good:
                 ctx.fail("mktrend", dict(x=x.tolist()), dict(tau=float(ds.tau.values[i, j])), "oracle values")
+    # accessor: the series is the pixel's values in the order in which they are laid out along `time`; a cube whose time axis is stored
+    # in descending order is the reversed series (tau, slope and flag change sign), and the stored order is what the result refers to
+    rev = da.isel(time=slice(None, None, -1))
+    dr = rev.hdc.algo.mktrend()
+    ctx.case(("accessor-reversed", cube.tobytes()))
+    for i in range(2):
+        for j in range(3):
+            if (cube[:, i, j] == -9999).all():
+                continue
+            o = oracle(cube[::-1, i, j].tolist())
+            good = (abs(dr.tau.values[i, j] - o["tau"]) < 1e-6 and abs(dr.slope.values[i, j] - o["slope"]) < 1e-5 and abs(dr.pvalue.values[i, j] - o["p"]) < 1e-6
+                    and (abs(o["p"] - 0.05) < 1e-6 or dr.trend.values[i, j] == o["trend"]))
+            if not good:
+                ctx.fail("mktrend", dict(x=cube[::-1, i, j].tolist(), time_axis="stored in descending order"),
+                         dict(tau=float(dr.tau.values[i, j]), slope=float(dr.slope.values[i, j]), trend=int(dr.trend.values[i, j])), o,
+                         note="time reversal flips the sign of tau, slope and flag")
     ctx.trusted += ["native model driver (Hdc/Model/Stats.lean at Float)", "harness/props/c10.py oracle (O(n^2) definition, math.erfc)"]
 
 
